@@ -75,6 +75,8 @@ pub struct BodyPlan {
     pub twin: bool,
     /// `send()` runs on a thread of its own; the response comes back to the caller's thread to be read
     pub send_on_other_thread: bool,
+    /// with `tls`: the https URL is reached through a CONNECT tunnel of a plain proxy (proxy.test:3128)
+    pub tunnel: bool,
     /// an overall `timeout` set on the request (far beyond anything the run reaches unless a check says otherwise)
     pub overall_timeout_ms: Option<u64>,
     /// how the chunked body was written (to re-encode it with other line endings)
@@ -286,6 +288,7 @@ pub fn gen_plan(g: &mut G, max_payload: usize) -> BodyPlan {
         twin: false,
         send_on_other_thread: false,
         overall_timeout_ms: None,
+        tunnel: false,
         garbage,
         wire,
         declared_len: len,
@@ -349,6 +352,7 @@ pub fn plan_from_payload(g: &mut G, payload: Vec<u8>, mut headers: Vec<(String, 
         twin: false,
         send_on_other_thread: false,
         overall_timeout_ms: None,
+        tunnel: false,
         garbage: 0,
         declared_len: len,
         script: Script::from_wire(&wire.bytes, &segs, End::Fin),
@@ -734,7 +738,9 @@ pub fn caller_with(plan: &BodyPlan, stop_on_block: bool, tweak: impl FnOnce(atto
     let url = if plan.tls { format!("https://{}{}", TLS_HOST_NAME, plan.url_path) } else { format!("http://{}{}", if plan.host_is_domain { HOST_NAME } else { HOST_IP }, plan.url_path) };
     let mut rb = attohttpc::RequestBuilder::new(attohttpc::Method::from_bytes(plan.method.as_bytes()).unwrap(), &url)
         .read_timeout(Duration::from_millis(plan.read_timeout_ms));
-    if plan.tls {
+    if plan.tls && plan.tunnel {
+        rb = rb.add_root_certificate(ca_cert()).proxy_settings(attohttpc::ProxySettings::builder().https_proxy(url::Url::parse("http://proxy.test:3128").unwrap()).build());
+    } else if plan.tls {
         rb = rb.add_root_certificate(ca_cert()).proxy_settings(attohttpc::ProxySettings::builder().build());
     }
     if let Some(t) = plan.overall_timeout_ms {
@@ -1107,6 +1113,41 @@ pub fn run_origin<T>(script: &Script, faults: &ConnFaults, ctx: &RunCtx, f: impl
                 let mut p = HttpPeer::new(Arc::new(move |_r, _c| script.clone()), seen3.clone());
                 p.faults = Some(faults.clone());
                 Box::new(crate::tlspeer::TlsPeer::new("good", Box::new(p), tls_log.clone(), info.conn))
+            })),
+        );
+    }
+    // ... and behind a plain proxy that opens CONNECT tunnels to it
+    {
+        let pip: IpAddr = "10.0.0.9".parse().unwrap();
+        sim.add_host("proxy.test", vec![pip]);
+        let script = script2.clone();
+        let faults = faults2.clone();
+        let seen4 = seen.clone();
+        let tls_log = tls_log.clone();
+        let plog = Arc::new(Mutex::new(crate::tlspeer::ProxyLog::default()));
+        sim.add_listener(
+            pip,
+            3128,
+            ConnectBehaviour::Accept { latency_ns: NS_PER_MS },
+            Some(Box::new(move |info| {
+                let script = script.clone();
+                let faults = faults.clone();
+                let seen4 = seen4.clone();
+                let tls_log = tls_log.clone();
+                let mut reply = Script::default();
+                reply.acts.push(crate::peers::Act::Send(b"HTTP/1.1 200 Connection established\r\n\r\n".to_vec()));
+                Box::new(crate::tlspeer::ConnectProxy::new(
+                    reply,
+                    true,
+                    Box::new(move |_a, conn| {
+                        let script = script.clone();
+                        let mut p = HttpPeer::new(Arc::new(move |_r, _c| script.clone()), seen4.clone());
+                        p.faults = Some(faults.clone());
+                        Some(Box::new(crate::tlspeer::TlsPeer::new("good", Box::new(p), tls_log.clone(), conn)) as Box<dyn attosim::Peer>)
+                    }),
+                    plog.clone(),
+                    info.conn,
+                ))
             })),
         );
     }
